@@ -247,3 +247,6 @@ func genC12(e *emitter, tier string) {
 	e.emit(decodeCase("bad-dims", &TPJ{DataType: 7, Dims: []int64{0}, Int64: []int64{}}))
 	e.emit(decodeCase("bad-dims", &TPJ{DataType: 7, Dims: []int64{0, 3}, HasRaw: true}))
 }
+
+func f32bits(f float32) uint32 { return math.Float32bits(f) }
+func f64bits(f float64) uint64 { return math.Float64bits(f) }
